@@ -35,6 +35,12 @@ Theorem C12_same_observations : forall c tr,
   = PObs.observe (PNonInt_def.erase_cfg c) (map PNonInt_def.erase_label tr).
 Proof. exact PNonInt.C12_same_observations. Qed.
 
+(** Monitor soundness: the extracted monitor for C12 (all three clauses) never rejects a stream of the model (P-self). *)
+From TP Require PMonSound12_C12 PObs PMon.
+Theorem mon_sound : forall c tr, clean (run c tr) -> taint_self (run c tr) = false -> PMon.ok_C12 c (PObs.observe c tr) = true.
+Proof. exact PMonSound12_C12.mon_C12_sound. Qed.
+
 Print Assumptions C12.
 Print Assumptions C12_noninterference.
 Print Assumptions C12_same_observations.
+Print Assumptions mon_sound.
